@@ -137,7 +137,7 @@ def check_statement(case, res: core.Res | None = None):
             if stream == "A":
                 text = s
             else:
-                if not d:
+                if not d or "own-format" in feats:
                     continue
                 try:
                     text = _gen(base_tree, d)
@@ -184,22 +184,81 @@ def frequency_floor(bucket: str, evaluations: int = 0) -> int:
     it is reached at a rate >= 1e-4 of the run's round trips (and >= 3 times): three 3.5M-case campaigns on the unchanged tree keep finding
     new cells at rates of 1e-6..1e-5 (a long tail of dialect-specific first-pass rewrites), whereas every seeded or repaired defect sat
     at >= 1e-3. Rarer cells are listed in coverage.uncatalogued_rare_buckets with their replay files."""
-    if bucket.startswith("base|") or bucket.startswith("harness|"):
+    if bucket.startswith(("base|", "harness|", "timefmt|")):
         return 1
     return max(3, int(evaluations * 1e-4))
 
 
+TIME_FUNCS = ("TIME_TO_STR", "STR_TO_TIME", "STR_TO_DATE", "STR_TO_UNIX")
+# the formats dialects treat as a DEFAULT (elided, added or special-cased) plus ordinary ones
+TIME_FORMATS = ("%Y-%m-%d", "%Y-%m-%d %H:%M:%S", "%H:%M:%S", "%Y%m%d", "%Y-%m-%dT%H:%M:%S", "%Y-%m-%d %H:%M:%S.%f", "%m/%d/%Y", "%d.%m.%Y", "%Y", "%H:%M", "%b %d, %Y", "%y-%j")
+
+
+def timefmt_cases():
+    return [{"sql": f"SELECT {fn}(x, '{fmt}') FROM t", "features": ["timefmt", "fn:" + fn.lower()], "kind": "select"} for fn in TIME_FUNCS for fmt in TIME_FORMATS]
+
+
+def timefmt_sweep(part, parts, res, only_bucket=None):
+    """EXHAUSTIVE stream (no random draw): every time-format function x every listed format x every dialect x both streams.
+    Default formats are where dialects special-case; the random grammar almost never spells one. Deterministic, hence strict:
+    its buckets carry the prefix 'timefmt|' and need one hit; the cells the unchanged tree shows are catalogued one by one."""
+    for i, case in enumerate(timefmt_cases()):
+        if i % parts != part:
+            continue
+        for b, d in check_statement(case, res):
+            b = "timefmt|" + b + "|" + case["sql"][7:-7]
+            if only_bucket is None or b == only_bucket:
+                res.fail(b, dict(case, timefmt=True), d)
+    res.extra["timefmt_statements"] = res.extra.get("timefmt_statements", 0) + len(timefmt_cases()[part::parts])
+    # the same functions (and CAST ... FORMAT) with the format spelled in the DIALECT'S OWN format language, read by that dialect
+    from sqlglot.dialects.dialect import Dialect
+    from sqlglot.time import format_time
+
+    n = 0
+    for j, d in enumerate(dialects()):
+        if not d or j % parts != part:
+            continue
+        dia = Dialect.get_or_raise(d)
+        for fmt in TIME_FORMATS:
+            try:
+                own = format_time(fmt, dia.INVERSE_TIME_MAPPING, dia.INVERSE_TIME_TRIE) or fmt
+            except Exception:
+                continue
+            if own == fmt or "'" in own:
+                continue
+            for text in [f"SELECT {fn}(x, '{own}') FROM t" for fn in TIME_FUNCS] + [f"SELECT CAST(x AS DATE FORMAT '{own}') FROM t"]:
+                case = {"sql": text, "features": ["timefmt", "own-format"], "kind": "select", "dialects": [d], "timefmt": True}
+                n += 1
+                try:
+                    fails = check_statement(case, res)
+                except Exception:
+                    continue
+                for b, det in fails:
+                    if b.startswith("harness|"):
+                        continue  # not base-dialect text: the dialect's own spelling need not parse in the base dialect
+                    b = "timefmt|" + b + "|" + case["sql"][7:-7]
+                    if only_bucket is None or b == only_bucket:
+                        res.fail(b, case, det)
+    res.extra["timefmt_own_format_statements"] = res.extra.get("timefmt_own_format_statements", 0) + n
+
+
 def plan(tier):
+    sweep = [{"kind": "timefmt", "part": i, "parts": 4} for i in range(4)]
     if tier == "quick":
-        return [{"n": 90, "depth": 3}] * 16
-    return [{"n": 1500, "depth": 3}] * 32 + [{"n": 700, "depth": 5}] * 16
+        return sweep + [{"n": 90, "depth": 3}] * 16
+    return sweep + [{"n": 1500, "depth": 3}] * 32 + [{"n": 700, "depth": 5}] * 16
 
 
 def run_shard(spec, seed, res, only_bucket=None):
+    if spec.get("kind") == "timefmt":
+        timefmt_sweep(spec["part"], spec["parts"], res, only_bucket)
+        return None
     return core.drive(sqlcore.statement(spec["depth"]), _body, seed, spec["n"], res, only_bucket)
 
 
 def replay(case):
+    if case.get("timefmt"):
+        return [("timefmt|" + b + "|" + case["sql"][7:-7], d) for b, d in check_statement(case, None)]
     return check_statement(case, None)
 
 
